@@ -283,7 +283,7 @@ def c17(case):
             by_uid = sorted(range(len(elems)), key=lambda j: elems[j]["uid"])
             made = {}
             for j in by_uid:      # create in uid order so that creation order == uid order
-                made[j] = pytrs.Tract("NE/4", trs=_trs_from_shape(elems[j], up[j]))
+                made[j] = pytrs.Tract("NE/4", trs=_trs_from_shape(elems[j], up[j]), config=(a.get("cfgs") or {}).get(str(j)))
             objs = [made[j] for j in range(len(elems))]
             lst = pytrs.TractList(objs)
         ids = {id(o): j + 1 for j, o in enumerate(objs)}
@@ -1094,6 +1094,14 @@ def c15_do(op):
             _mutate_container(d.tracts[0].qqs)
             g = d.tracts.group_by("twprge")
             _mutate_container(g)
+    elif name == "ask_layout":
+        # the layout of the probes' own texts, asked for with a restricted list of candidates (documented optional
+        # argument) - through the method and through the module-level function
+        from pytrs.parser import deduce_layout as _dl
+        for txt in ("T154N-R97W Sec 14: NE/4, Sec 15: Lots 1, 1", "T154-R97W Sec 14: NE/4, Lots 1 - 3", C15_HELD_TEXT):
+            pytrs.PLSSDesc(txt, wait_to_parse=True).deduce_layout(candidates=["desc_STR", "S_desc_TR"])
+            _dl(txt, ["desc_STR", "S_desc_TR"])
+            _dl(pytrs.PLSSDesc(txt, wait_to_parse=True).pp_desc, ["copy_all"])
     elif name == "use_cfg":
         pytrs.Tract.from_twprgesec("NE/4", 154, 97, 14, default_ns=a, default_ew=b, config=_C15_CFG[0], parse_qq=True)
         pytrs.TRS.from_twprgesec(154, 97, 14, default_ns=a, default_ew=b)
